@@ -18,6 +18,7 @@ import (
 	"bufio"
 	"io"
 	"os"
+	"strings"
 
 	"github.com/alibaba/sentinel-golang/core/base"
 	"github.com/alibaba/sentinel-golang/logging"
@@ -175,18 +176,14 @@ func (r *defaultMetricLogReader) readMetricsInOneFileByEndTime(filename string, 
 }
 
 func readLine(bufReader *bufio.Reader) (string, error) {
-	buf := make([]byte, 0, 64)
-	for {
-		line, ne, err := bufReader.ReadLine()
-		if err != nil {
-			return "", err
-		}
-		buf = append(buf, line...)
-		if !ne {
-			return string(buf), err
-		}
-		// buffer size < line size, so we need to read until the `ne` flag is false.
+	// A final line without its LF terminator is a torn write (crash mid-write): it is dropped
+	// (reported as EOF) rather than parsed, since a prefix of a line can still look like a valid item.
+	line, err := bufReader.ReadString('\n')
+	if err != nil {
+		return "", err
 	}
+	line = strings.TrimSuffix(line[:len(line)-1], "\r")
+	return line, nil
 }
 
 func getLatestSecond(items []*base.MetricItem) uint64 {
